@@ -9,7 +9,7 @@ from ..backends.ninja import writer as ninja
 from ..build_inputs import Edge
 from ..file_types import File, ManPage
 from ..iterutils import first, unlistify
-from ..path import Path
+from ..path import Path, Root
 from ..versioning import SpecifierSet
 
 
@@ -37,6 +37,11 @@ class CopyFile(Edge):
         def pathfn(file):
             if name is None:
                 path = file.path.reroot()
+                if path.root != Root.builddir:
+                    # An absolute path stays where it is when rerooted, i.e.
+                    # the copy would be the file itself (and `clean` would
+                    # remove it); copy it to the build directory instead.
+                    path = Path(path.basename())
                 if directory:
                     return within_directory(path, directory)
                 return path
@@ -63,7 +68,10 @@ class CompressFile(Edge):
         file = context['auto_file'](file)
 
         def pathfn(file):
-            return file.path.reroot().addext('.gz')
+            path = file.path.reroot()
+            if path.root != Root.builddir:
+                path = Path(path.basename())
+            return path.addext('.gz')
 
         output = file.clone(pathfn)
         return output, file, kwargs
